@@ -107,7 +107,7 @@ class Pair:
 
 
 def lamp_name(d):
-    return {k: d.get(k) for k in R.LAMPS}
+    return {k: d.get(k) or 0 for k in R.LAMPS}
 
 
 def dm1_worker(item):
@@ -351,9 +351,16 @@ def overlap_worker(item):
     sc = {'part': 'cycle overlaps transport', 'dll': dll, 'dtc_count': n, 'cycle': cycle}
     p = Pair(dll)
     try:
-        dtcs = [{'spn': 1000 + i, 'fmi': i & 31, 'oc': i & 127} for i in range(n)]
+        supplied = []
+
+        def cb():
+            # the content changes from call to call: a received DM1 must be one complete supplied list
+            k = len(supplied)
+            dt = [{'spn': 1000 + i + 7 * k, 'fmi': (i + k) & 31, 'oc': (i + 3 * k) & 127} for i in range(n)]
+            lamps = {'awl': 1 + (k & 1), 'pl': k % 4}
+            supplied.append((lamps, dt))
+            return dict(lamps), [dict(d) for d in dt]
         tx = j1939.Dm1(p.acas[0])
-        cb = lambda: ({'awl': 1}, [dict(d) for d in dtcs])
         tx.start_send(cb, cycle)
         size = 2 + 4 * n
         seg = 7 if dll == 'j1939-21' else 60
@@ -363,12 +370,13 @@ def overlap_worker(item):
         T = eff * 6 + transport
         p.w.run_for(T)
         want = int(T / eff) - 2
-        got = [g for g in p.got if g[3] == dtcs]
+        ok_lists = [(lamp_name(l), d) for (l, d) in supplied]
+        got = [g for g in p.got if (lamp_name(g[2]), g[3]) in ok_lists]
         probs = []
         if len(got) < want:
             probs.append("DM1 stopped arriving although stop_send was never called (%d received, at least %d expected)" % (len(got), want))
         if len(got) != len(p.got):
-            probs.append("DM1 subscriber received a different trouble code list")
+            probs.append("DM1 subscriber received lamp states / trouble codes that no single callback call supplied (torn message)")
         acc.case(('overlap', dll, n, cycle), outcome=(dll, n, len(got)))
         if probs:
             acc.violation(csig(probs[0]), sc, None, probs)
